@@ -15,6 +15,12 @@ CHECKS = {
  "C02": ("model_checking", "stateless exploration of the implementation's map-iteration nondeterminism (runtime overlay owns hash seeds and every mapiterinit start; all executions with <=1 dynamic / <=1 site deviation and all uniform rotations), plus exhaustive declaration-order permutations and load histories",
          "Go's map randomness is the scheduler here: a patched runtime (build overlay, no source hooks) lets the harness answer every map-iteration start in compose-go, yaml.v3, mapstructure, reflect. For every corpus input the check runs the canonical execution, every uniform rotation, every execution deviating at one dynamic iteration point, and every execution deviating at all instances of one iteration site with every bucket/offset start, and demands identical outcome class, deep-equal project and byte-identical YAML/JSON. Declaration-order permutations of the YAML text and every history of <=2 earlier loads (fresh subprocess each) are enumerated too.",
          "Trusted: the runtime patch (engine/mapctl, checked by anchors against go1.23.5) and the replay check (canonical run twice, identical point count and output). Orders needing >=2 independent deviations are outside the bound.", "§3 E2, §4 C02", "E2 E5"),
+ "C13": ("model_checking", "stateless model checking of the real traversal code under a controlled scheduler: DFS over all schedules with iterative preemption bounding, all ready select branches, happens-before state caching; ThreadSanitizer active inside every explored schedule",
+         "graph/traversal.go, types/project.go and the errgroup sources are rewritten syntactically at check time (build overlay, /repo untouched) so that every mutex, channel, select, WaitGroup, Once and go statement is a scheduling point of engine E1. For every DAG up to isomorphism on <=4 services x direction x concurrency limit x root selection x error injection, every schedule within the preemption bound (2 for <=3 services, 1 for 4 in the quick tier; 3/2 thorough) is executed and 8 monitors are evaluated on its event log (exactly-once, order, limit, return-after-visits, no leaked goroutine, error propagation, project unchanged, data-race freedom); every cyclic digraph on <=4 nodes must be refused without a visit. A deadlock is 'no enabled thread'.",
+         "Trusted: engine/vsched (scheduler, shims and their race annotations, unit-tested incl. under -race), engine/instrument (syntactic rewrite), the visitor model {enter; yield; exit}. Bugs needing more preemptions than the bound are outside it.", "§3 E1, §4 C13", "E1 E2 E5"),
+ "C19": ("model_checking", "stateless model checking under the controlled scheduler with ThreadSanitizer inside each schedule: all pairs of concurrent loads (preemptible at every access to a mutable package-level variable) and all schedules of the service fan-out up to the preemption bound",
+         "(a) every ordered pair of 11 corpus inputs is loaded by two controlled threads; the instrumenter inserts a scheduling point before every statement touching a package-level variable that is assigned outside init, so a load can be preempted exactly where cross-load shared state is touched; baton hand-offs are hidden from ThreadSanitizer, so unsynchronised conflicting accesses are reported on the schedule that separates them; results are compared with the load run alone. (b) WithServicesTransform on 0..4 services x error injection at every subset of <=2 services x every schedule within the bound: deadlock, leaked goroutine, wrong/partial result, wrong error, receiver modified, data race.",
+         "Trusted: as C13, plus the patched sync.Pool (drops items under -race so pooled objects do not order threads). Real synchronisation in uninstrumented third-party code can still mask a race between two loads.", "§3 E1, §4 C19", "E1 E2 E5"),
 }
 
 NOT_YET = {}
@@ -52,6 +58,7 @@ def main():
         },
         "engines": [
             {"name": "E2 mapctl", "path": "engine/mapctl", "serves_properties": ["C02"], "kind_free_text": "go build -overlay of runtime/map*.go, rand.go, alg.go: pins hash seeds, answers every map iteration start from the harness; stateless exploration of iteration-order choice vectors"},
+            {"name": "E1 vsched", "path": "engine/vsched + engine/instrument", "serves_properties": ["C13", "C19"], "kind_free_text": "controlled cooperative scheduler with channel/select/sync/atomic/errgroup shims put in place by a syntactic source rewriter (go build -overlay); stateless DFS with iterative preemption bounding, HB state caching, deadlock detection, in-schedule ThreadSanitizer"},
             {"name": "E5 workers", "path": "harness/core", "serves_properties": sorted(CHECKS), "kind_free_text": "crash-containing sharded worker processes, parent merges outcomes, known-findings classification, replay artefacts"},
         ],
         "checks": checks,
